@@ -218,7 +218,10 @@ fn make_crypto_reader<'a>(
 ) -> ZipResult<Result<CryptoReader<'a>, InvalidPassword>> {
     #[allow(deprecated)]
     {
-        if let CompressionMethod::Unsupported(_) = compression_method {
+        // `AES` is a container marker, not a decodable method: it can only get here as the
+        // *inner* method of an AES extra field or from a local header read by the streaming
+        // reader, and make_reader has no decoder for it.
+        if let CompressionMethod::Unsupported(_) | CompressionMethod::AES = compression_method {
             return unsupported_zip_error("Compression method not supported");
         }
     }
